@@ -23,6 +23,11 @@ def shards(mode, bin_, n, **kw):
 
 
 PROPS = {
+    "C17": {
+        "runs": [native("c17")],
+        "expect_monitors": ["simd_conversion_lanes_equal_scalar", "simd_masks_packing_and_operators", "f32_agrees_with_f64"],
+        "assumptions": ASSUME_COMMON + ["the wide crate (0.7.33) implements its lane-wise arithmetic correctly; its transcendental approximations are allowed the same error budget as the scalar f32/f64 code"],
+    },
     "C15": {
         "runs": [native("c15")],
         "expect_monitors": ["cylinder_into_rgb_gamut", "rgb_into_cylinder_bounds_and_back"],
